@@ -330,7 +330,8 @@ def _build_registry():
     E("BPTC19696.repair_if_necessary", lambda b: L(B).repair_if_necessary(b), "cw:BPTC")
     for cn, mod, k in (("VBPTC12873", "etsi.fec.vbptc_128_72", 72), ("VBPTC6828", "etsi.fec.vbptc_68_28", 28), ("VBPTC3211", "etsi.fec.vbptc_32_11", 11)):
         p = f"{mod}:{cn}"
-        E(f"{cn}.encode", (lambda p: lambda b: L(p).encode(b))(p), f"bits:{k}")
+        # every input layout the encoder documents: information bits only / with the check field / the whole de-interleaved matrix
+        E(f"{cn}.encode", (lambda p: lambda b: L(p).encode(b))(p), "bits:" + {72: "72|72|77|128", 28: "28|28|36|68", 11: "11|11|32"}[k])
         E(f"{cn}.deinterleave_data_bits", (lambda p: lambda b: L(p).deinterleave_data_bits(b))(p), f"cw:{cn}")
         E(f"{cn}.deinterleave_all_bits", (lambda p: lambda b: L(p).deinterleave_all_bits(b))(p), f"cw:{cn}")
     T = "etsi.fec.trellis:Trellis34"
@@ -395,6 +396,19 @@ def _build_registry():
     E("LRRP.get_token", lambda a: _lrrp_token(a), "int:0:400")
     E("TextMessagingService.from_bytes", lambda d: L("motorola.text_messaging_service:TextMessagingService").from_bytes(d), "vect")
     E("AutomaticRegistrationService.from_bytes", lambda d: L("motorola.automatic_registration_service:AutomaticRegistrationService").from_bytes(d), "veca")
+    # constructors with default arguments, generically: parse, then build the same class again from the parsed attributes with a seeded subset
+    # of the optional parameters left to their defaults
+    for _nm, _path, _spec in (("DataHeader", "etsi.layer2.pdu.data_header:DataHeader", "pdu:dh"), ("CSBK", "etsi.layer2.pdu.csbk:CSBK", "pdu:csbk"),
+                              ("FullLinkControl", "etsi.layer2.pdu.full_link_control:FullLinkControl", "pdu:flc"), ("PIHeader", "etsi.layer2.pdu.pi_header:PIHeader", "pdu:pi"),
+                              ("ShortLinkControl", "etsi.layer2.pdu.short_link_control:ShortLinkControl", "pdu:slc"), ("SlotType", "etsi.layer2.pdu.slot_type:SlotType", "bits:20"),
+                              ("UDPIPv4CompressedHeader", "etsi.layer3.pdu.udp_ipv4_compressed_header:UDPIPv4CompressedHeader", "bits:40-200")):
+        E(f"{_nm}(from parsed attributes, seeded defaults)", (lambda p: lambda b, om: _reconstruct(L(p).from_bits(b), om))(_path), _spec, "int:0:65535")
+    for _nm, _mod in (("Rate12Data", "etsi.layer2.pdu.rate12_data"), ("Rate34Data", "etsi.layer2.pdu.rate34_data"), ("Rate1Data", "etsi.layer2.pdu.rate1_data")):
+        E(f"{_nm}(from parsed attributes, seeded defaults)",
+          (lambda m, n: lambda b, t, om: _reconstruct(L(f"{m}:{n}").from_bits_typed(b, list(L(f"{m}:{n}Types"))[t % len(list(L(f"{m}:{n}Types")))]), om))(_mod, _nm),
+          "pdu:" + {"Rate12Data": "r12", "Rate34Data": "r34", "Rate1Data": "r1"}[_nm], "int:0:5", "int:0:65535")
+    for _nm, _path, _spec in (("HSTRP", "hytera.pdu.hstrp:HSTRP", "vecp:3242"), ("HRNP", "hytera.pdu.hrnp:HRNP", "vecp:7e"), ("HDAP", "hytera.pdu.hdap:HDAP", "vecp:02|08|09|11|82|88|89|91")):
+        E(f"{_nm}(from parsed attributes, seeded defaults)", (lambda p: lambda d, om: _reconstruct(L(p).from_bytes(d), om))(_path), _spec, "int:0:65535")
     # stateful parts of the library, each on a FRESH object per call (so the pristine oracle applies): they drag the handlers' and the
     # tracker's code paths into the histories
     E("RRSDatagramProtocol(fresh).datagram_received", lambda d: _fresh_rrs(d), "vecp:3242")
@@ -409,6 +423,39 @@ def _build_registry():
     E("numpy_array_to_bitarray", lambda a: L(U + ":numpy_array_to_bitarray")(a), "np:1-40")
     E("bitarray_to_numpy_array", lambda b: L(U + ":bitarray_to_numpy_array")(b), "bits:1-40")
     E("numpy_array_to_int", lambda a: L(U + ":numpy_array_to_int")(a), "np:1-40")
+
+
+# LocationProtocol's default `gpsdata` is GPSData.zero(), evaluated when the module is imported: it carries the date of the import by design (see
+# DESIGN 8.3, GPSData.zero); the property's clock clause is about parsing, so that one default is never the thing compared
+RECON_NEVER_OMIT = {("LocationProtocol", "gpsdata")}
+RECON_ALIASES = {"dpf": "data_packet_format", "flco": "full_link_control_opcode", "fid": "feature_set_id", "opcode": "specific_service"}
+
+
+def _reconstruct(obj, omit):
+    """a second object of the same class built through its constructor from the public attributes of a parsed one, leaving out a seeded subset
+    of the constructor's OPTIONAL parameters (so their defaults apply): objects built with default arguments, for every PDU class at once"""
+    import inspect
+
+    if obj is None or isinstance(obj, (list, tuple)):
+        raise LookupError("nothing to reconstruct")
+    cls = type(obj)
+    kw = {}
+    bit = 0
+    for name, p in list(inspect.signature(cls.__init__).parameters.items())[1:]:
+        if p.kind in (p.VAR_POSITIONAL, p.VAR_KEYWORD):
+            continue
+        optional = p.default is not inspect.Parameter.empty
+        attr = name if hasattr(obj, name) else RECON_ALIASES.get(name, name)
+        if not hasattr(obj, attr):
+            if optional:
+                continue
+            raise LookupError(f"{cls.__name__}: no attribute for required parameter {name}")
+        if optional and (cls.__name__, name) not in RECON_NEVER_OMIT:
+            bit += 1
+            if (omit >> (bit - 1)) & 1:
+                continue
+        kw[name] = getattr(obj, attr)
+    return [cls(**kw), sorted(kw)]
 
 
 def _fresh_rrs(d):
@@ -624,11 +671,42 @@ class ArgGen:
             for i in range(st, st + ln):
                 b[i // 8] ^= 0x80 >> (i % 8)
             return b.hex()
+        if b and self.r.random() < 0.06:
+            # a field the sender left unset: a window of 1 - 8 octets all zero (or all ones), anywhere in the message
+            ln = self.r.choice([1, 2, 3, 4, 5, 6, 8])
+            st = self.r.randrange(max(1, len(b) - ln + 1))
+            fill = self.r.choice([0, 0, 0, 0xFF])
+            for i in range(st, min(len(b), st + ln)):
+                b[i] = fill
+            return b.hex()
         for _ in range(k):
             if b:
                 i = self.r.randrange(len(b) * 8)
                 b[i // 8] ^= 0x80 >> (i % 8)
         return b.hex()
+
+    def mbxml_field_boundary(self, h):
+        """a document from the vectors with ONE element's value set to a boundary value of its own type (octet strings all-zero / all-ones, numbers
+        zero), found through the library's own parser and written back by its serialiser (generation phase: the argument is the resulting octets)"""
+        try:
+            MB = L("motorola.mbxml:MBXML")
+            docs = MB.from_bytes(bytes.fromhex(h))
+            doc = docs[self.r.randrange(len(docs))]
+            parts = [p for p in doc.parts if isinstance(p.value, (bytes, int, float, tuple)) and not isinstance(p.value, bool)]
+            p = self.r.choice(parts)
+            fill = self.r.choice([0, 0, 0, 0xFF])
+
+            def bound(v):
+                if isinstance(v, bytes):
+                    return bytes([fill]) * len(v)
+                if isinstance(v, tuple):
+                    return tuple(bound(x) for x in v)
+                return type(v)(0)
+
+            p.value = bound(p.value)
+            return b"".join(MB.as_bytes(d) for d in docs).hex()
+        except Exception:
+            return None
 
     def vecp(self, prefixes):
         c = [v for v in self.vec if any(v.startswith(p) for p in prefixes)]
@@ -727,6 +805,10 @@ class ArgGen:
             return {"b": self.vecp(rest.split("|"))}
         if kind == "vecm":
             c = [v for v in self.vec if len(v) > 10 and int(v[:2], 16) in (4, 5, 6, 7, 8, 9, 10, 11, 12, 13, 14, 15, 16, 17, 18, 19, 20, 21, 22, 23, 24, 25, 26, 29)]
+            if r.random() < 0.25:
+                m = self.mbxml_field_boundary(r.choice(c or self.vec))
+                if m is not None:
+                    return {"b": m}
             return {"b": self.flip_hex(r.choice(c or self.vec), r.choice([0, 0, 0, 1]))}
         if kind == "vect" and r.random() < 0.6:
             # byte-level TMS grammar: | len(2) | first header | addr len | addr | optional headers | payload | with boundary sequence numbers
@@ -947,6 +1029,7 @@ def snapshot(args):
 
 class C19(Check):
     pid = "C19"
+    reach_dirs = ("etsi", "hytera", "motorola", "utils")  # "the public codec entry points (CRC, FEC, PDU, burst, Hytera, Motorola)": reach is reported for all of them
     level = "exploration"
     split_generate = True
     chunk = 6
